@@ -107,6 +107,8 @@ class Run(RunBase):
             return all(("far" in p) or p["lanelet"] in self.present for p in op.get("pts", [op]))
         if k == "swap":
             return self.shadow is not None
+        if k == "bystander":
+            return bool(self.present)
         return k in ("restart", "panel")
 
     # ------------------------------------------------------------------ model helpers
@@ -333,7 +335,7 @@ class Run(RunBase):
     def apply(self, op):
         k = op["op"]
         out = getattr(self, "_op_" + k)(op)
-        if k not in ("q_pos", "q_shape", "panel", "swap") and self.cfg["panel_after_mutation"]:
+        if k not in ("q_pos", "q_shape", "panel", "swap") and (self.cfg["panel_after_mutation"] or k == "bystander"):
             self._panel()
         if k not in ("q_pos", "q_shape", "panel", "swap"):
             self._check_shadow()
@@ -504,6 +506,34 @@ class Run(RunBase):
                                                    "right": np.array(la.right_vertices, dtype=float)}
         return "ok"
 
+    def _op_bystander(self, op):
+        """Read-only use of the network between construction steps (drawing, comparing, copying without keeping):
+        afterwards the lanelets are where they were and the index still mirrors them (checked by the panel)."""
+        how = op["how"]
+        self.route = "bystander:" + how
+        self.probe("bystander-" + how)
+        try:
+            if how == "draw":
+                import matplotlib.pyplot as plt
+
+                from commonroad.visualization.mp_renderer import MPRenderer
+
+                try:
+                    rnd = MPRenderer()
+                    self.net.draw(rnd)
+                    rnd.render()
+                finally:
+                    plt.close("all")
+            elif how == "compare":
+                self.net == self.net, hash(self.net), str(self.net)  # noqa
+            elif how == "copy-and-drop":
+                copy.deepcopy(self.net).translate_rotate(np.array([5.0, 5.0]), 0.7)
+            elif how == "derive":
+                LaneletNetwork.create_from_lanelet_list(self.net.lanelets)
+        except Exception:  # noqa   totality of these operations is not C06's business
+            self.probe("bystander-raised")
+        return "ok"
+
     def _op_swap(self, op):
         self._swap()
         self.probe("continued-on-the-other-copy")
@@ -658,6 +688,17 @@ def _querier(rng, run, cfg):
             yield {"op": "panel"}
 
 
+def _bystander(rng, run, cfg):
+    n_draw = 0
+    while True:
+        how = rng.pick(["draw", "compare", "copy-and-drop", "derive"])
+        if how == "draw":
+            n_draw += 1
+            if n_draw > 1:
+                how = "compare"
+        yield {"op": "bystander", "how": how} if run.present else None
+
+
 def _restarter(rng, run, cfg):
     while True:
         if run.shadow is not None and rng.chance(0.45):
@@ -683,7 +724,7 @@ class C06(Property):
                        "shape-query-via-rotate_translate_local", "coincident-lanelets", "route:add-with-id-clash", "route:add_lanelet[rtree=False..True]",
                        "candidate-list-with-repeated-obstacle-id", "fork-keeps-original",
                        "continued-on-the-other-copy", "lattice-point-exactly-on-a-lanelet-border",
-                       "lattice-shape-exactly-tangent-to-a-lanelet"]
+                       "lattice-shape-exactly-tangent-to-a-lanelet", "bystander-draw", "bystander-derive"]
     assumptions = [
         "geometric truth comes from crkit.geom (raw vertices / parameters, shapely predicates on geometry built there) "
         "with a don't-care band: clearance or penetration below 1e-7, and for circles distances in [0.99 r, r] "
@@ -697,7 +738,7 @@ class C06(Property):
     def gen_config(self, rng):
         return {"steps": rng.randint(5, 24), "routes": sorted(rng.subset(ROUTES, 0.6, at_least=2)),
                 "restart_kinds": sorted(rng.subset(RESTARTS, 0.5, at_least=1)), "restarts": rng.chance(0.6),
-                "panel_after_mutation": rng.chance(0.7), "n_queriers": rng.randint(1, 2),
+                "panel_after_mutation": rng.chance(0.7), "n_queriers": rng.randint(1, 2), "bystander": rng.chance(0.4),
                 "shape_kinds": sorted(rng.subset(["rect", "circ", "poly", "group"], 0.6, at_least=1))}
 
     def gen_universe(self, rng, cfg):
@@ -745,6 +786,8 @@ class C06(Property):
             out.append(Client(f"querier{j}", 2.0, _querier(rng.sub("q", j), run, cfg)))
         if cfg["restarts"]:
             out.append(Client("restarter", 0.8, _restarter(rng.sub("r"), run, cfg)))
+        if cfg.get("bystander"):
+            out.append(Client("bystander", 0.5, _bystander(rng.sub("by"), run, cfg)))
         return out
 
     def prune_universe(self, universe, trace):
